@@ -3,6 +3,7 @@ package rules
 import (
 	"fmt"
 	"go/token"
+	"os"
 	"sort"
 	"strings"
 
@@ -14,10 +15,10 @@ import (
 func init() {
 	register(&PropRules{
 		ID:      "C11",
-		Explain: "Linearizability — structural preconditions: (C11.1) confinement: every access to s.dir and every call of a store-library (lib.Dir / UserHash) method in cmd/whawty-auth runs only in the dispatcher goroutine (role analysis over the VTA call graph; NewStore's accesses precede the `go` that starts it), and no `go` statement is reachable from the dispatcher, so each operation's effect lies between its request and its response; (C11.2) request/response pairing as in C10.2 (fresh private response channel ⇒ no cross-talk) and the SASL per-connection handler writes no shared state; (C11.3) internally generated writes are atomic with their check: the upgrade write (an update request without response channel) is performed only under a successful authentication of the same user with the same password in the same dispatcher turn (or not queued at all); (C11.4) reload (the pointer swap of s.dir) is called only from the dispatcher.",
+		Explain: "Linearizability — structural preconditions: (C11.1) confinement: every access to s.dir and every call of a store-library (lib.Dir / UserHash) method in cmd/whawty-auth runs only in the dispatcher goroutine (role analysis over the VTA call graph; NewStore's accesses precede the `go` that starts it), and no `go` statement is reachable from the dispatcher, so each operation's effect lies between its request and its response; (C11.2) request/response pairing as in C10.2 (fresh private response channel ⇒ no cross-talk) and the SASL per-connection handler writes no shared state; (C11.3) internally generated writes are atomic with their check: the upgrade write (an update request without response channel) is performed only under a successful authentication of the same user with the same password in the same dispatcher turn (or not queued at all); (C11.4) reload (the pointer swap of s.dir) is called only from the dispatcher; (C11.5) nothing answers in a frontend's place while its store request is pending: every registered web route is served by a chain of layers (library wrappers and module middlewares, read from their SSA) each of which calls the next one inside its own call and writes no answer before it — a layer that runs the wrapped handler in a goroutine of its own (http.TimeoutHandler, a middleware selecting on time.After / ctx.Done) is refused —, no frontend entry point starts a goroutine that sends a store request, and the store's answer is received without a select alternative.",
 		Undec:   []string{"real-time histories as such (only the single-writer/turn structure is decided)", "multi-process access to one directory", "races inside net/http, glauth/ldap and other libraries"},
 		Run:     runC11,
-		Floors:  map[string]int{"C11.1": 10, "C11.2": 18, "C11.3": 1, "C11.4": 1},
+		Floors:  map[string]int{"C11.1": 10, "C11.2": 18, "C11.3": 1, "C11.4": 1, "C11.5": 14},
 	})
 	register(&PropRules{
 		ID:      "C12",
@@ -203,6 +204,7 @@ func runC11(c *an.Ctx, p *an.Prog, thorough bool) {
 	}
 
 	c113(c, p, "C11.3")
+	c115(c, p)
 
 	// C11.4
 	if rl := p.Method("/cmd/whawty-auth", "store", "reload"); need(c, "C11.4", rl, "main.(*store).reload") {
@@ -225,6 +227,118 @@ func runC11(c *an.Ctx, p *an.Prog, thorough bool) {
 			}
 		}
 		c.Check(len(bad) == 0, "C11.4", fnKey(rl)+"|dispatcher-only", p.Pos(rl.Pos()), "reload runs only in the dispatcher; s.dir is written only by NewStore and reload", strings.Join(bad, "; "))
+	}
+}
+
+// c115: nothing answers in a frontend's place while its store request is pending. "Every response equals the
+// sequential store semantics" presupposes that the answer a client gets IS the store's answer to its request: the
+// frontend sends the request, waits for the store's answer without any alternative, and only then answers. Decided
+// structurally: (a) every registered route of the web API (route table, webroutes.go) is served by a chain of layers
+// each of which calls the next one inside its own call — in the goroutine that serves the request, returning only after
+// it — and writes no answer before that call; a layer that runs the next handler in a goroutine of its own (and so can
+// answer after a timeout / a cancelled context while the handler's request is still queued in the dispatcher:
+// http.TimeoutHandler, a middleware with `go next.ServeHTTP` + select on time.After) is a violation, whether it is
+// library or module code (both are read from their SSA); (b) no frontend entry point starts a goroutine that talks to
+// the store, and (c) the store's answer is received unconditionally (no select alternative next to the receive on a
+// response channel, C10-s3's shape). Layers that only pre-/post-process (logging, headers, StripPrefix,
+// MaxBytesReader, a method check that refuses without calling on) satisfy (a).
+func c115(c *an.Ctx, p *an.Prog) {
+	routes := webRoutes(p)
+	nWeb := 0
+	ord := &ordinal{}
+	for _, rt := range routes {
+		key := ord.next("route=" + rt.Pattern)
+		touches := false
+		for _, hf := range rt.Handlers {
+			if len(storeMethodsCalled(p, hf)) > 0 {
+				touches = true
+			}
+		}
+		if touches {
+			nWeb++
+		}
+		var bad, und []string
+		for _, u := range rt.Unresolved {
+			und = append(und, "UNRESOLVED: "+u)
+		}
+		for _, l := range rt.Layers {
+			where := ""
+			if l.Site != nil {
+				where = " (put on the route at " + p.InstrPos(l.Site) + ")"
+			}
+			for _, a := range l.Async {
+				bad = append(bad, "layer "+l.Name+where+" can answer in the handler's place while the handler — and the store request it has sent — is still pending: "+a+"; the client gets an answer that is not the store's, the request is executed later and can overwrite a change acknowledged in between")
+			}
+			for _, e := range l.Early {
+				bad = append(bad, "layer "+l.Name+where+" answers before the handler has run: "+e)
+			}
+			for _, o := range l.Opaque {
+				und = append(und, "UNRESOLVED: layer "+l.Name+where+": "+o)
+			}
+		}
+		if len(rt.Handlers) == 0 && len(rt.Terminals) == 0 && len(und) == 0 {
+			und = append(und, "UNRESOLVED: no handler found behind the registration")
+		}
+		var hs []string
+		for _, hf := range rt.Handlers {
+			hs = append(hs, fnKey(hf))
+		}
+		chain := strings.Join(append(append(rt.layerNames(), hs...), rt.Terminals...), " → ")
+		if os.Getenv("WACHECK_DEBUG_ROUTES") != "" {
+			fmt.Fprintf(os.Stderr, "ROUTE %s at %s: %s unresolved=%v\n", rt.Pattern, p.InstrPos(rt.Site), chain, rt.Unresolved)
+		}
+		switch {
+		case len(bad) > 0:
+			c.Fail("C11.5", key+"|answered-by-its-handler", p.InstrPos(rt.Site), strings.Join(uniqS(append(bad, und...)), "; "))
+		case len(und) > 0:
+			c.Undecided("C11.5", key+"|answered-by-its-handler", p.InstrPos(rt.Site), strings.Join(uniqS(und), "; "))
+		default:
+			c.OK("C11.5", key+"|answered-by-its-handler", p.InstrPos(rt.Site), "chain: "+chain+" — every layer calls the next inside its own call and writes nothing before it")
+		}
+	}
+	if nWeb < 8 {
+		c.Undecided("C11.5", "routes", "-", fmt.Sprintf("UNRESOLVED: %d registered routes lead to handlers that use the Store, confirmed floor 8", nWeb))
+	}
+	// (b) + (c) per frontend entry point
+	resp := map[*ssa.MakeChan]bool{}
+	for _, fn := range pkgFns(p, mainPkg) {
+		if fn.Signature.Recv() == nil || !isNamed(fn.Signature.Recv().Type(), mainPkg, "Store") {
+			continue
+		}
+		for _, in := range an.DeepInstrs(fn) {
+			if mk, ok := in.(*ssa.MakeChan); ok {
+				resp[mk] = true
+			}
+		}
+	}
+	isClient := func(f *ssa.Function) bool {
+		return f != nil && f.Signature.Recv() != nil && isNamed(f.Signature.Recv().Type(), mainPkg, "Store") && an.FnPkgPath(f) == mainPkg
+	}
+	for _, r := range frontendRoots(p) {
+		var bad []string
+		all := p.Reach([]*ssa.Function{r.Fn}, an.ReachOpts{OnlyRepo: true, CrossGo: true})
+		for _, gs := range p.GoSites() {
+			if _, ok := all[gs.Parent]; !ok {
+				continue
+			}
+			sub := p.Reach(gs.Callees, an.ReachOpts{OnlyRepo: true, CrossGo: true})
+			for f := range sub {
+				if isClient(f) {
+					bad = append(bad, "the goroutine started at "+p.InstrPos(gs.In)+" in "+fnKey(gs.Parent)+" sends a store request (Store."+f.Name()+"): the frontend can answer while that request is pending")
+				}
+			}
+		}
+		for _, o := range p.ChanOps() {
+			if _, ok := all[o.Fn]; !ok || o.Kind != "recv" || !o.InSelect {
+				continue
+			}
+			for _, m := range o.Sites {
+				if resp[m] {
+					bad = append(bad, "the store's answer is received in a select with other branches at "+p.InstrPos(o.In)+" in "+fnKey(o.Fn)+": when another branch wins the request stays queued and is executed after the frontend has answered")
+				}
+			}
+		}
+		c.Check(len(bad) == 0, "C11.5", "frontend="+r.Name+"|store-request-awaited", p.Pos(r.Fn.Pos()), "no goroutine started below this entry point talks to the store; the store's answer is received unconditionally", strings.Join(uniqS(bad), "; "))
 	}
 }
 
